@@ -4,6 +4,7 @@ import (
 	"errors"
 	"io"
 	"net"
+	"os"
 	"sync"
 	"time"
 )
@@ -32,10 +33,15 @@ type ScriptConn struct {
 	Out        []byte
 	Writes     []int
 	WriteErrAt int // writer fails once this many bytes were accepted (-1: never)
-	ShortWrite bool
-	Closes     int
-	Deadlines  []time.Time
-	dlMu       sync.Mutex
+	// WriteTimeoutAt >= 0: the first Write that crosses this offset takes the
+	// octets up to it and returns a timeout (a write deadline that expired);
+	// later writes go through.
+	WriteTimeoutAt int
+	wTimedOut      bool
+	ShortWrite     bool
+	Closes         int
+	Deadlines      []time.Time
+	dlMu           sync.Mutex
 	// OnWrite, if set, runs at the start of every Write (before the octets are
 	// taken): a control point for "something happens as the peer is written to".
 	OnWrite func()
@@ -48,7 +54,7 @@ type ScriptConn struct {
 var ErrWouldBlock = errors.New("simnet: script exhausted (read would block)")
 
 func NewScript(in []byte) *ScriptConn {
-	return &ScriptConn{In: in, CutAt: -1, WriteErrAt: -1}
+	return &ScriptConn{In: in, CutAt: -1, WriteErrAt: -1, WriteTimeoutAt: -1}
 }
 
 func (c *ScriptConn) Feed(b []byte) { c.In = append(c.In, b...) }
@@ -123,10 +129,25 @@ func (c *ScriptConn) Write(p []byte) (int, error) {
 		n = max(0, c.WriteErrAt-len(c.Out))
 		err = ErrReset
 	}
+	if c.WriteTimeoutAt >= 0 && !c.wTimedOut && err == nil && len(c.Out)+n > c.WriteTimeoutAt {
+		c.wTimedOut = true
+		n = max(0, c.WriteTimeoutAt-len(c.Out))
+		err = ErrWriteTimeout
+	}
 	c.Out = append(c.Out, p[:n]...)
 	c.Writes = append(c.Writes, n)
 	return n, err
 }
+
+// ErrWriteTimeout is what a write deadline that expired looks like.
+var ErrWriteTimeout error = writeTimeout{}
+
+type writeTimeout struct{}
+
+func (writeTimeout) Error() string   { return "simnet: write deadline exceeded (i/o timeout)" }
+func (writeTimeout) Timeout() bool   { return true }
+func (writeTimeout) Temporary() bool { return true }
+func (writeTimeout) Is(t error) bool { return t == os.ErrDeadlineExceeded }
 
 func (c *ScriptConn) Close() error                       { c.Closes++; return nil }
 func (c *ScriptConn) LocalAddr() net.Addr                { return addr("script") }
